@@ -98,7 +98,44 @@ def verdicts(progs, findings, stats):
     return res
 
 
-def flags(progs, findings, stats):
+def known_ints(raw, pidx, node):
+    return [int(v["intvalue"]) for v in raw.get((pidx, node), []) if v.get("known") == "true" and "intvalue" in v
+            and v.get("indirect", "0") == "0" and v.get("bound", "Point") == "Point"]
+
+
+def definite(p, pidx, fd, node, raw, plat):
+    """Does the error finding rest on a KNOWN value at the operand that makes the evaluation undefined?  (C04 is about
+    findings 'because of a definite value there'; cppcheck also reports error severity for values that are only
+    possible on some path - those are not claims about every execution and are not flagged.)"""
+    import minic_types as T
+    fid = fd["id"]
+    nid = fd["node"]
+    if fid == "zerodiv":
+        return node["k"] in ("bin", "asg") and 0 in known_ints(raw, pidx, node["b"])
+    if fid == "nullPointer":
+        return node["ty"] == "ptr" and 0 in known_ints(raw, pidx, nid)
+    if fid in ("arrayIndexOutOfBounds", "negativeIndex"):
+        if node["k"] != "idx":
+            return False
+        n = p["funcs"][node["fn"] - 1]["vars"][p["nodes"][node["a"] - 1]["v"] - 1]["n"]
+        return any(k < 0 or k >= n for k in known_ints(raw, pidx, node["b"]))
+    if fid in ("shiftTooManyBits", "shiftTooManyBitsSigned", "shiftNegative"):
+        if node["k"] not in ("bin", "asg"):
+            return False
+        width = T.bits(plat, node["ty"]) if node["ty"] in T.RANK else 0
+        return any(k < 0 or k >= width for k in known_ints(raw, pidx, node["b"]))
+    if fid == "integerOverflow":
+        if node["k"] == "bin":
+            return bool(known_ints(raw, pidx, node["a"])) and bool(known_ints(raw, pidx, node["b"]))
+        if node["k"] == "un":
+            return bool(known_ints(raw, pidx, node["a"]))
+        return False
+    if fid == "uninitvar":
+        return any(v.get("known") == "true" and "uninit" in v and v.get("indirect", "0") == "0" for v in raw.get((pidx, nid), []))
+    return False
+
+
+def flags(progs, findings, stats, raw, plat):
     """facts[pidx] = list of flag facts for C04."""
     res = [[] for _ in progs]
     for pidx, (p, fds) in enumerate(zip(progs, findings)):
@@ -133,6 +170,9 @@ def flags(progs, findings, stats):
             if (fd["node"], fd["id"]) in seen:
                 continue
             seen.add((fd["node"], fd["id"]))
+            if not definite(p, pidx, fd, node, raw, plat):
+                stats["error_without_known_value_" + fd["id"]] = stats.get("error_without_known_value_" + fd["id"], 0) + 1
+                continue
             res[pidx].append({"n": fd["node"], "k": "flag", "v": 0, "t": 0, "par": 0, "id": fd["id"], "msg": fd["msg"],
                               "line": fd["line"], "col": fd["col"]})
             stats["flag_" + fd["id"]] = stats.get("flag_" + fd["id"], 0) + 1
